@@ -8,7 +8,12 @@
 (*              or the decoding of the very payload the signature covers   *)
 (*              (C19, C03 last sentence)                                   *)
 (*   NoForgery  nothing verifies that an honest signer did not sign (C02)  *)
-(* Checked with  tlapm --threads 8 PsaEvidenceProofs.tla  (37 obligations, *)
+(* and the post-conditions of every step (Inv2: a failed operation returns *)
+(* no token, after a failed signing attempt nothing verifies, validating   *)
+(* gates never pass an invalid claims-set, a returned token is the         *)
+(* envelope held), that a good signer always succeeds and that what it     *)
+(* returns verifies under its key on the signing Evidence itself.          *)
+(* Checked with  tlapm --threads 8 PsaEvidenceProofs.tla  (76 obligations, *)
 (* SMT / Zenon / Isabelle / PTL back ends, ~10 s).  Non-vacuity: with      *)
 (* UnmarshalF keeping the old claims after a failed claims decode the      *)
 (* obligation of StepUnmarshal is not provable.                            *)
@@ -58,4 +63,55 @@ THEOREM Safety == ESpec => []Inv
 \* no forgery follows from the invariant alone
 THEOREM InvImpliesNoForgery == Inv => NoForgery
   BY ConstAssump DEF Inv, SigKnown, NoForgery, VerifyOK, VerifyOKm, NoSig, Junk, Sig
+
+(***************************************************************************)
+(* The remaining design-level properties of MC_Evidence, each a            *)
+(* post-condition of the step that sets eret: also for arbitrary constants *)
+(***************************************************************************)
+Inv2 == FailedOpNoToken /\ FailedSignThenVerifyFails /\ GateNeverPassesInvalid /\ TokenIsEnvelope
+
+THEOREM InitInv2 == EInit => Inv2
+  BY DEF EInit, Inv2, FailedOpNoToken, FailedSignThenVerifyFails, GateNeverPassesInvalid, TokenIsEnvelope, RetRec, Res
+
+LEMMA Step2SetClaims == ASSUME NEW c \in ClaimIds, SetClaims(c) PROVE Inv2'
+  BY DEF Inv2, FailedOpNoToken, FailedSignThenVerifyFails, GateNeverPassesInvalid, TokenIsEnvelope, SetClaims, Do, SetClaimsF, EvState, Res, RetRec, ValidClaims
+
+LEMMA Step2Attach == ASSUME NEW c \in ClaimIds, Attach(c) PROVE Inv2'
+  BY DEF Inv2, FailedOpNoToken, FailedSignThenVerifyFails, GateNeverPassesInvalid, TokenIsEnvelope, Attach, Do, AttachF, EvState, Res, RetRec
+
+LEMMA Step2Verify == ASSUME NEW k \in Keys, Verify(k) PROVE Inv2'
+  BY DEF Inv2, FailedOpNoToken, FailedSignThenVerifyFails, GateNeverPassesInvalid, TokenIsEnvelope, Verify, Do, VerifyF, Res, RetRec
+
+LEMMA Step2Unmarshal == ASSUME NEW t \in TokenUniverse, Unmarshal(t) PROVE Inv2'
+  BY DEF Inv2, FailedOpNoToken, FailedSignThenVerifyFails, GateNeverPassesInvalid, TokenIsEnvelope, Unmarshal, Do, UnmarshalF, EvState, Res, RetRec
+
+LEMMA Step2Sign == ASSUME NEW sg \in Signers, NEW v \in BOOLEAN, SignWith(sg, v) PROVE Inv2'
+  BY ConstAssump DEF Inv2, FailedOpNoToken, FailedSignThenVerifyFails, GateNeverPassesInvalid, TokenIsEnvelope, SignWith, Do, SignF, EvState,
+     Res, RetRec, FreshMsg, NoMsg, NoSig, Junk, Sig, Signers, ValidClaims, VerifyOK, VerifyOKm
+
+THEOREM Inductive2 == Inv2 /\ [ENext]_evars => Inv2'
+<1> SUFFICES ASSUME Inv2, [ENext]_evars PROVE Inv2' OBVIOUS
+<1>1. CASE UNCHANGED evars
+  BY <1>1 DEF Inv2, FailedOpNoToken, FailedSignThenVerifyFails, GateNeverPassesInvalid, TokenIsEnvelope, VerifyOK, VerifyOKm, evars
+<1>2. CASE ENext BY <1>2, Step2SetClaims, Step2Attach, Step2Verify, Step2Unmarshal, Step2Sign DEF ENext
+<1> QED BY <1>1, <1>2
+
+THEOREM Safety2 == ESpec => []Inv2
+  BY InitInv2, Inductive2, PTL DEF ESpec
+
+\* with claims attached a good signer always succeeds (a failed attempt does not wedge the Evidence)
+THEOREM GoodSigner == GoodSignAlwaysSucceeds
+  BY DEF GoodSignAlwaysSucceeds, SignF, Signers, EvState, Res, FreshMsg, NoMsg, Sig
+
+\* what a good signer returns verifies under its key on the signing Evidence itself
+THEOREM GoodSignVerifiesStep ==
+  ASSUME ENext, eret'.op \in {"Sign", "ValidateAndSign"}, eret'.ok, eret'.tok.sig.k \in Keys
+  PROVE VerifyOKm(ev'.msg, eret'.tok.sig.k)
+<1>1. ASSUME NEW c \in ClaimIds, SetClaims(c) \/ Attach(c) PROVE FALSE
+  BY <1>1 DEF SetClaims, Attach, Do, RetRec
+<1>2. ASSUME NEW t \in TokenUniverse, Unmarshal(t) PROVE FALSE BY <1>2 DEF Unmarshal, Do, RetRec
+<1>3. ASSUME NEW k \in Keys, Verify(k) PROVE FALSE BY <1>3 DEF Verify, Do, RetRec
+<1>4. ASSUME NEW sg \in Signers, NEW v \in BOOLEAN, SignWith(sg, v) PROVE VerifyOKm(ev'.msg, eret'.tok.sig.k)
+  BY <1>4, ConstAssump DEF SignWith, Do, SignF, EvState, Res, RetRec, FreshMsg, NoMsg, NoSig, Junk, Sig, Signers, VerifyOKm
+<1> QED BY <1>1, <1>2, <1>3, <1>4 DEF ENext
 ====
